@@ -213,9 +213,32 @@ pub fn tabulate_atoms(keys: &[String], tables: &mut AtomTables) -> Result<(), St
 
 pub type Tok = (usize, usize, usize);
 
+/// (token type, start, end) of a match; every other accessor of the value must describe the same
+/// byte range (`span`, `range`, `len`, `is_empty`, conversions of `Span`). A disagreement panics
+/// inside the caller's `catch`, i.e. it is reported like any other failure of the call.
+pub fn tok(m: &scnr::Match) -> Tok {
+    let (s, e) = (m.start(), m.end());
+    let sp = m.span();
+    let r: std::ops::Range<usize> = sp.into();
+    if sp.start != s || sp.end != e || m.range() != (s..e) || r != (s..e) || sp.range() != (s..e) || m.len() != e.wrapping_sub(s) || sp.len() != m.len() || m.is_empty() != (s == e) || sp.is_empty() != (s == e) || scnr::Span::from(s..e) != sp {
+        panic!("accessors of one Match disagree: start()={s} end()={e} span()={sp:?} range()={:?} len()={} is_empty()={}", m.range(), m.len(), m.is_empty());
+    }
+    (m.token_type(), s, e)
+}
+
+/// The same for a match with positions.
+pub fn tok_ext(m: &scnr::MatchExt) -> Tok {
+    let (s, e) = (m.start(), m.end());
+    let sp = m.span();
+    if sp.start != s || sp.end != e || m.range() != (s..e) || m.len() != e.wrapping_sub(s) || m.is_empty() != (s == e) {
+        panic!("accessors of one MatchExt disagree: start()={s} end()={e} span()={sp:?} range()={:?} len()={} is_empty()={}", m.range(), m.len(), m.is_empty());
+    }
+    (m.token_type(), s, e)
+}
+
 /// Runs the iterator to exhaustion.
 pub fn scan_all(sc: &Scanner, input: &str) -> Result<Vec<Tok>, String> {
-    catch(|| sc.find_iter(input).map(|m| (m.token_type(), m.start(), m.end())).collect())
+    catch(|| sc.find_iter(input).map(|m| tok(&m)).collect())
 }
 
 pub fn repo_root() -> std::path::PathBuf {
